@@ -95,3 +95,18 @@ Example C02_game_example :
   legal_line initial_position [Normal 12 28 None; Normal 52 36 None; Normal 6 21 None; Normal 57 42 None; Normal 5 26 None; Normal 62 45 None; Castle true] = true.
 Proof. split; vm_compute; reflexivity. Qed.
 
+
+(* ... and through the text of the UCI command: `position fen <the FEN of a legal position> moves <a legal line as UCI words>` is resolved by the
+   front-end model (Engine/UciSession.v, run next to the real binary) to exactly play p0 ms *)
+From CV Require Import Chess.Fen Engine.UciSession Engine.UciSessionText.
+Theorem C02_position_command_text_reaches_the_rules_position :
+  forall (s p0 : position) (ms : list move),
+    valid_position p0 = true -> legal_line p0 ms = true ->
+    ustep s (CPosition (fen_parse (fen_print p0)) (text_of_line p0 ms)) = play p0 ms.
+Proof.
+  intros s p0 ms Hv Hl. destruct (valid_parts p0 Hv) as [Hb [_ [_ [_ [_ [_ [Hep [Hc Hf]]]]]]]].
+  apply position_command_on_text; try assumption; [|lia].
+  intros e He. unfold ep_consistent in Hep. rewrite He in Hep. cbv zeta in Hep.
+  repeat (apply andb_prop in Hep; destruct Hep as [Hep ?]). apply N.ltb_lt. exact Hep.
+Qed.
+Print Assumptions C02_position_command_text_reaches_the_rules_position.
